@@ -36,6 +36,29 @@ pub(crate) trait UniModel<const N: usize, const M: usize>: Sized + 'static {
     const SYMBOLIC_MANAGER: bool = true;
 }
 
+/// What a Multi channel's harness module must provide
+#[allow(dead_code)]
+pub(crate) trait MultiModel<const N: usize, const M: usize>: Sized + 'static {
+    type Derived: Debug + 'static;
+    /// the REAL channel struct whose manager is `manager` and whose per-listener queues are EMPTY with ring counters at `origins[j]`
+    /// (for the pooled kinds: pool with all N slots free, free-list ring at `pool_origin`)
+    fn build(manager: StreamsManagerBase<M>, origins: [u32; M], pool_origin: u32) -> Arc<Self>;
+    fn manager(&self) -> &StreamsManagerBase<M>;
+    fn payload_of(d: &Self::Derived) -> u32;
+    /// identity of the shared allocation a handle points to
+    fn allocation_of(d: &Self::Derived) -> *const ();
+    /// handles alive for that allocation, as the handle type reports it
+    fn handles_of(d: &Self::Derived) -> u32;
+    fn queue_len(&self, listener: usize) -> u32;
+    /// the k-th buffered handle of a listener's queue (borrowed from the ring's raw storage)
+    fn queue_item(&self, listener: usize, k: u32) -> &Self::Derived;
+    fn queues_quiescent(&self) -> bool;
+    /// free payload slots (pooled kinds), or u32::MAX for the heap-allocating Arc kinds
+    fn free_slots(&self) -> u32;
+    /// does this channel implement reserve_slot / try_send_reserved / try_cancel_slot_reserve
+    const HAS_RESERVED: bool;
+}
+
 /// A setter future for `send_with_async`: answers `Pending` `pending_polls` times, then writes `x` into the slot and completes
 #[allow(dead_code)]
 pub(crate) struct SetterFut { pub slot: Option<&'static mut u32>, pub x: u32, pub pending_polls: u32 }
@@ -310,6 +333,210 @@ pub(crate) mod kit {
         assert!(arc.running_streams_count() == n0,                           "drop stream: running-stream count == number of live streams");
         let (v, vn) = sm::vacant_of(leak_static(&arc).manager());
         assert!(vn == M as u32 - n0 && v[(vn - 1) as usize] == id,           "drop stream: its id is vacant (reusable) again");
+        kani::cover!(true, "end of harness reachable (vacuity guard)");
+    }
+
+    // ------------------------------------------------------------------------------------------------------------------------------
+    // Multi channels
+    // ------------------------------------------------------------------------------------------------------------------------------
+
+    /// any set of live listeners, all parked and running, queues empty at arbitrary ring origins
+    pub(crate) fn any_multi<C: MultiModel<N, M>, const N: usize, const M: usize>(all_parked: bool) -> (Arc<C>, sm::SmState<M>) {
+        // any set of live listeners; vacant ids in ascending order, vacant ring at origin 0 (StreamsManagerBase is verified from
+        // arbitrary states in kani/streams_manager.rs)
+        let mut s = sm::SmState::<M>::first_streams_parked(0);
+        s.live = kani::any();
+        let mut i = 0; while i < M { s.keep[i] = s.live[i]; s.parked[i] = if all_parked { s.live[i] } else { s.live[i] && kani::any::<bool>() }; i += 1; }
+        // ring origins are FIXED just below the 32-bit wrap (so the wrap happens inside the scenario): the per-listener queues hold
+        // POINTER-valued handles, and a symbolic slot index for a pointer makes every later dereference a case split over all heap
+        // objects -- CBMC ran out of memory (> 15 GB per harness) with symbolic origins here. The rings themselves are verified
+        // from every origin in kani/atomic_move.rs / kani/full_sync_move.rs.
+        let ch = C::build(sm::manager_in_state(&s), [u32::MAX - 1; M], u32::MAX);
+        (ch, s)
+    }
+
+    /// C03 / C04: one accepted send is fanned out to EXACTLY the live listeners: every live listener's queue gets one more handle, all
+    /// handles point to the same allocation carrying the payload sent, no other queue is touched, and every live (parked) listener whose
+    /// queue was empty is woken. A second send keeps the per-listener order.
+    pub(crate) fn multi_fanout<C, const N: usize, const M: usize>(entry: Entry)
+    where C: MultiModel<N, M> + ChannelProducer<'static, u32, C::Derived> + ChannelConsumer<'static, C::Derived> + ChannelCommon<u32, C::Derived> {
+        let (arc, s) = any_multi::<C, N, M>(true);
+        let ch = leak_static(&arc);
+        let x: u32 = kani::any(); let y: u32 = kani::any();
+        let mut w0 = [0u32; M]; let mut i = 0; while i < M { w0[i] = sm::wakes(i); i += 1; }
+        let calls = static_cell();
+        assert!(drive::<C, C::Derived>(ch, entry, x, calls) == Outcome::Accepted, "send: accepted (every queue has room, the pool has free slots)");
+        assert!(ch.queues_quiescent(),                                       "send: no lock / reservation left behind");
+        let live_n = s.live_count();
+        let mut first: *const () = std::ptr::null();
+        let mut j = 0;
+        while j < M {
+            if s.live[j] {
+                assert!(ch.queue_len(j) == 1,                                "fan-out: every live listener gets the event exactly once");
+                let d = ch.queue_item(j, 0);
+                assert!(C::payload_of(d) == x,                               "fan-out: the listener's handle carries the payload that was sent");
+                if first.is_null() { first = C::allocation_of(d); }
+                assert!(C::allocation_of(d) == first,                        "fan-out: all listeners observe the very same shared allocation");
+                assert!(C::handles_of(d) == live_n,                          "fan-out: once the send returned, live handles == number of listeners (the producer's own handle is gone)");
+                assert!(sm::wakes(j) >= w0[j] + 1,                           "fan-out: a parked listener whose queue was empty is woken");
+            } else {
+                assert!(ch.queue_len(j) == 0,                                "fan-out: queues of ids that are not live are not touched");
+            }
+            j += 1;
+        }
+        assert!(ch.pending_items_count() == if live_n > 0 { 1 } else { 0 },  "pending_items_count == longest listener queue");
+        if ch.free_slots() != u32::MAX { assert!(ch.free_slots() == N as u32 - if live_n > 0 { 1 } else { 0 }, "pooled payload: one slot outstanding while listeners hold it; none if there is no listener"); }
+        // second event: order per listener
+        assert!(drive::<C, C::Derived>(ch, Entry::Send, y, calls) == Outcome::Accepted, "second send accepted");
+        let j: usize = kani::any();
+        if j < M && s.live[j] {
+            assert!(ch.queue_len(j) == 2,                                    "second event fanned out as well");
+            match ch.consume(j as u32) { Some(d) => { assert!(C::payload_of(&d) == x, "listener receives the events in send order (1st)"); std::mem::forget(d); }, None => assert!(false, "must yield") }
+            match ch.consume(j as u32) { Some(d) => { assert!(C::payload_of(&d) == y, "listener receives the events in send order (2nd)"); std::mem::forget(d); }, None => assert!(false, "must yield") }
+            assert!(ch.consume(j as u32).is_none(),                          "nothing else is yielded (no value that was not sent)");
+        }
+        kani::cover!(live_n == M as u32, "all MAX_STREAMS listeners live");
+        kani::cover!(live_n == 0, "no listener at all");
+        kani::cover!(true, "end of harness reachable (vacuity guard)");
+    }
+
+    /// C05 / C14 at channel level: the payload lives until the LAST listener released its handle, then (pooled kinds) its slot is free again
+    pub(crate) fn multi_payload_released_after_last_listener<C, const N: usize, const M: usize>()
+    where C: MultiModel<N, M> + ChannelProducer<'static, u32, C::Derived> + ChannelConsumer<'static, C::Derived> + ChannelCommon<u32, C::Derived> {
+        let (arc, s) = any_multi::<C, N, M>(true);
+        let ch = leak_static(&arc);
+        let x: u32 = kani::any();
+        assert!(matches!(ch.send(x), keen_retry::RetryResult::Ok { .. }),    "send accepted");
+        let mut remaining = s.live_count();
+        let mut j = 0;
+        while j < M {
+            if s.live[j] {
+                match ch.consume(j as u32) {
+                    Some(d) => {
+                        assert!(C::payload_of(&d) == x && C::handles_of(&d) == remaining, "each listener's handle is valid and counts the handles still alive");
+                        drop(d); remaining -= 1;
+                        if ch.free_slots() != u32::MAX { assert!(ch.free_slots() == N as u32 - if remaining > 0 { 1 } else { 0 }, "slot stays outstanding until the last handle is dropped, then it is free again"); }
+                    }
+                    None => assert!(false, "must yield"),
+                }
+            }
+            j += 1;
+        }
+        if ch.free_slots() != u32::MAX { assert!(ch.free_slots() == N as u32,  "all handles released: the channel accepts BUFFER_SIZE new events again"); }
+        kani::cover!(true, "end of harness reachable (vacuity guard)");
+    }
+
+    /// C10: a listener created after some events were left unconsumed by an earlier listener (whose stream was dropped) must not see them
+    pub(crate) fn multi_new_listener_sees_nothing_old<C, const N: usize, const M: usize>()
+    where C: MultiModel<N, M> + ChannelMulti<'static, u32, C::Derived> + ChannelProducer<'static, u32, C::Derived> + ChannelConsumer<'static, C::Derived> + ChannelCommon<u32, C::Derived> {
+        let (arc, s) = any_multi::<C, N, M>(false);
+        kani::assume(s.live_count() >= 1);
+        let ch = leak_static(&arc);
+        // an existing listener `old` ...
+        let old: u32 = kani::any(); kani::assume(old < M as u32 && s.live[old as usize]);
+        let old_stream = MutinyStream::<u32, C, C::Derived> { stream_id: old, events_source: arc.clone(), _phantom: PhantomData };
+        // ... receives an event it never consumes, and goes away
+        let x: u32 = kani::any();
+        assert!(matches!(ch.send(x), keen_retry::RetryResult::Ok { .. }),    "send accepted");
+        assert!(ch.queue_len(old as usize) == 1,                             "the old listener has one unconsumed event");
+        drop(old_stream);
+        assert!(ch.running_streams_count() == s.live_count() - 1,            "running-stream count == live listeners");
+        // a new listener is created: whatever id it gets, nothing sent before its creation may be yielded
+        let (new_stream, new_id) = arc.create_stream_for_new_events();
+        assert!(ch.running_streams_count() == s.live_count(),                "running-stream count == live listeners");
+        let got = ch.consume(new_id);
+        let stale = got.is_some();
+        if let Some(d) = got { std::mem::forget(d); }
+        assert!(!stale,                                                      "a listener created for new events yields nothing that was sent before its creation");
+        std::mem::forget(new_stream);
+        kani::cover!(new_id == old, "the new listener re-uses the dropped listener's id");
+        kani::cover!(true, "end of harness reachable (vacuity guard)");
+    }
+
+    /// C16 (pooled Multi kinds): with the pool exhausted a send is rejected, hands the payload back and changes nothing
+    pub(crate) fn multi_rejected_send_changes_nothing<C, const N: usize, const M: usize>(entry: Entry)
+    where C: MultiModel<N, M> + ChannelProducer<'static, u32, C::Derived> + ChannelConsumer<'static, C::Derived> + ChannelCommon<u32, C::Derived> {
+        let (arc, s) = any_multi::<C, N, M>(true);
+        kani::assume(s.live_count() >= 1);
+        let ch = leak_static(&arc);
+        let calls = static_cell();
+        // fill: N accepted sends exhaust the pool (each listener keeps its handles buffered)
+        let mut i = 0u32;
+        while i < N as u32 { assert!(drive::<C, C::Derived>(ch, Entry::Send, i, calls) == Outcome::Accepted, "exactly BUFFER_SIZE events can be outstanding"); i += 1; }
+        assert!(ch.free_slots() == 0 && ch.pending_items_count() == N as u32, "pool exhausted, every listener queue holds BUFFER_SIZE events");
+        let w = sm::total_wakes(M);
+        assert!(drive::<C, C::Derived>(ch, entry, 77, calls) == Outcome::RejectedUnchangedInput, "full: rejected promptly, payload / setter handed back unchanged and un-invoked");
+        assert!(ch.free_slots() == 0 && ch.pending_items_count() == N as u32, "rejected: no capacity consumed, pending count unchanged");
+        let j: usize = kani::any();
+        if j < M { assert!(ch.queue_len(j) == if s.live[j] { N as u32 } else { 0 }, "rejected: no listener queue changed"); }
+        let _ = w;
+        // a consumer makes room: the retry succeeds
+        let mut j = 0; while j < M { if s.live[j] { match ch.consume(j as u32) { Some(d) => drop(d), None => assert!(false, "must yield") } } j += 1; }
+        assert!(ch.free_slots() == 1,                                        "one event released by every listener: exactly one slot is free again");
+        assert!(drive::<C, C::Derived>(ch, entry, 77, calls) == Outcome::Accepted, "retry succeeds as soon as there is room");
+        kani::cover!(true, "end of harness reachable (vacuity guard)");
+    }
+
+    /// C05: tearing the channel down with events still buffered touches no freed memory and destroys every payload exactly once.
+    /// (Kani's own checks -- dereference of dead objects, double free -- are the obligation; the assertions only pin the accounting.)
+    pub(crate) fn multi_teardown_with_buffered_events<C, const N: usize, const M: usize>()
+    where C: MultiModel<N, M> + ChannelProducer<'static, u32, C::Derived> + ChannelConsumer<'static, C::Derived> + ChannelCommon<u32, C::Derived> {
+        let (arc, s) = any_multi::<C, N, M>(true);
+        kani::assume(s.live_count() >= 1);
+        {
+            let ch = leak_static(&arc);
+            assert!(matches!(ch.send(kani::any()), keen_retry::RetryResult::Ok { .. }), "send accepted");
+            assert!(ch.pending_items_count() == 1,                           "one event buffered per listener at teardown");
+        }
+        assert!(Arc::strong_count(&arc) == 1,                                "the harness holds the only reference: dropping it tears the channel down");
+        drop(arc);
+        kani::cover!(true, "end of harness reachable (vacuity guard)");
+    }
+
+    /// C20 (Multi): a suspended send_with_async holds nothing others wait for; a plain send meanwhile is delivered first
+    pub(crate) fn multi_suspended_async_send_blocks_nobody<C, const N: usize, const M: usize>()
+    where C: MultiModel<N, M> + ChannelProducer<'static, u32, C::Derived> + ChannelConsumer<'static, C::Derived> + ChannelCommon<u32, C::Derived> {
+        let (arc, s) = any_multi::<C, N, M>(true);
+        kani::assume(s.live_count() >= 1);
+        let ch = leak_static(&arc);
+        let x: u32 = kani::any(); let y: u32 = kani::any();
+        let waker = sm::counting_waker(7);
+        let mut cx = Context::from_waker(&waker);
+        let mut fut = Box::pin(ch.send_with_async(move |slot: &'static mut u32| SetterFut { slot: Some(slot), x, pending_polls: 1 }));
+        assert!(fut.as_mut().poll(&mut cx).is_pending(),                     "the setter is suspended, so is the send");
+        assert!(ch.queues_quiescent(),                                       "at the .await of send_with_async: no listener queue is locked or holds an unpublished reservation");
+        assert!(ch.pending_items_count() == 0,                               "length query answers; nothing deliverable yet");
+        assert!(matches!(ch.send(y), keen_retry::RetryResult::Ok { .. }),    "a plain send completes while the other send is suspended");
+        let j: usize = kani::any(); kani::assume(j < M && s.live[j]);
+        match ch.consume(j as u32) { Some(d) => { assert!(C::payload_of(&d) == y, "the event accepted meanwhile is delivered without waiting for the suspended send"); drop(d); }, None => assert!(false, "must yield") }
+        assert!(matches!(fut.as_mut().poll(&mut cx), Poll::Ready(keen_retry::RetryResult::Ok { .. })), "when the setter completes, the suspended send completes with Ok");
+        match ch.consume(j as u32) { Some(d) => { assert!(C::payload_of(&d) == x, "... and its event is delivered as well"); drop(d); }, None => assert!(false, "must yield") }
+        kani::cover!(true, "end of harness reachable (vacuity guard)");
+    }
+
+    /// C08 (pooled Multi kinds): reserved slot sent -> delivered to every listener with the written content; cancelled -> never delivered, slot free again
+    pub(crate) fn multi_reserved_slot<C, const N: usize, const M: usize>()
+    where C: MultiModel<N, M> + ChannelProducer<'static, u32, C::Derived> + ChannelConsumer<'static, C::Derived> + ChannelCommon<u32, C::Derived> {
+        let (arc, s) = any_multi::<C, N, M>(true);
+        let ch = leak_static(&arc);
+        let x: u32 = kani::any();
+        match ch.reserve_slot() {
+            None => assert!(false,                                           "reserve: granted while slots are free"),
+            Some(slot) => {
+                assert!(ch.free_slots() == N as u32 - 1 && ch.pending_items_count() == 0, "reserve: one slot taken, nothing deliverable");
+                *slot = x;
+                if kani::any() {
+                    assert!(ch.try_send_reserved(slot),                      "send reserved: succeeds");
+                    let j: usize = kani::any();
+                    if j < M { if s.live[j] { assert!(ch.queue_len(j) == 1 && C::payload_of(ch.queue_item(j, 0)) == x, "send reserved: every listener gets precisely the content written into the slot, once"); }
+                               else { assert!(ch.queue_len(j) == 0, "send reserved: non-live queues untouched"); } }
+                    if s.live_count() == 0 { assert!(ch.free_slots() == N as u32, "send reserved with no listener: the slot is released, not leaked"); }
+                } else {
+                    assert!(ch.try_cancel_slot_reserve(slot),                "cancel: succeeds");
+                    assert!(ch.free_slots() == N as u32 && ch.pending_items_count() == 0, "cancel: never delivered, slot free again");
+                }
+            }
+        }
         kani::cover!(true, "end of harness reachable (vacuity guard)");
     }
 }
